@@ -114,7 +114,9 @@ def block_json(d):
 
 
 # ------------------------------------------------------------ builders
-def build_tx(d, mutable=False):
+def build_tx(d, mutable=False, alt=False):
+    """alt: the same value handed over in the other container forms callers legitimately use
+    (tuples for vin/vout, lists for witness stacks and the witness vector, generator for nothing)"""
     from bitcoin.core import (COutPoint, CMutableOutPoint, CTxIn, CMutableTxIn, CTxOut, CMutableTxOut,
                               CTransaction, CMutableTransaction, CTxWitness, CTxInWitness)
     from bitcoin.core.script import CScript, CScriptWitness
@@ -122,14 +124,18 @@ def build_tx(d, mutable=False):
         OP, TI, TO, TX = CMutableOutPoint, CMutableTxIn, CMutableTxOut, CMutableTransaction
     else:
         OP, TI, TO, TX = COutPoint, CTxIn, CTxOut, CTransaction
-    vin = [TI(OP(i["hash"], i["n"]), CScript(i["script"]), i["seq"]) for i in d["vin"]]
-    vout = [TO(o["value"], CScript(o["script"])) for o in d["vout"]]
+    seq_ = tuple if alt else list
+    vin = seq_(TI(OP(i["hash"], i["n"]), CScript(i["script"]), i["seq"]) for i in d["vin"])
+    vout = seq_(TO(o["value"], CScript(o["script"])) for o in d["vout"])
     w = d["wit"]
     if w is None:
         return TX(vin, vout, d["lock"], d["ver"])
     if w == "noentries":
         return TX(vin, vout, d["lock"], d["ver"], CTxWitness())
-    wit = CTxWitness(tuple(CTxInWitness(CScriptWitness(tuple(st))) for st in w))
+    if alt:
+        wit = CTxWitness([CTxInWitness(CScriptWitness(list(st))) for st in w])
+    else:
+        wit = CTxWitness(tuple(CTxInWitness(CScriptWitness(tuple(st))) for st in w))
     return TX(vin, vout, d["lock"], d["ver"], wit)
 
 
